@@ -460,6 +460,65 @@ class Conv:
         collect()
         return dict(streams={q2: bytes(v) for q2, v in streams.items()}, out=out, events=events, first_seq=first['seq'], later=(rid, hx))
 
+    def run_readd_after_timeout(self, silent_for):
+        """the first round of a request ends with a receive timeout (the server reads it and stays silent); the caller adds the SAME handle object
+        again - the documented way to retry: the request is written once more, whole, and completes with the reply; the clocks of the handle's first
+        life play no part"""
+        s = self.s
+        c = s.cmd
+        now = 1700000000
+        c('clock %d' % now)
+        c('async_new 0 0 sign')
+        c('async_endpoint 0 set ksi+tcp://agg.example:3332 anon anon')
+        c('async_opt 0 cache_size 4')
+        c('async_opt 0 max_request_count 1000')
+        for o in ('snd_timeout', 'rcv_timeout', 'con_timeout'):
+            c('async_opt 0 %s 5' % o)
+        c('net_ep agg.example 3332 connect=0 send=- recv=-')
+        nconn0 = len(s.tcp_order)
+        h0 = self.hashes[0]
+        c('async_add 0 0 sign %s 0 q0' % h0.hex())
+        first = None
+        for _ in range(silent_for + 6):
+            now += 1
+            c('clock %d' % now)
+            q = c('async_run 0 keep=6')
+            if q.get('handle') == '1' and q.get('tag') == 'q0':
+                first = (int(q['state']), int(q.get('herr', 0)))
+                break
+        if first is None or first[0] != 5:
+            c('ahnd_free 6')
+            c('async_free 0')
+            return dict(error='first round did not end with an error: %s' % (first,))
+        for info in s.tcp_order[nconn0:]:
+            info['sent'] = bytearray()
+        a = c('async_readd 0 6')
+        if a.rc != 0:
+            c('ahnd_free 6')
+            c('async_free 0')
+            return dict(error='re-adding the handle refused rc=%#x' % a.rc)
+        rid = int(a.get('reqid', 0))
+        out, sent = None, bytearray()
+        for step in range(12):
+            now += 1
+            c('clock %d' % now)
+            q = c('async_run 0 keep=6')
+            for info in s.tcp_order[nconn0:]:
+                if info['open'] and info['sent']:
+                    sent += info['sent']
+                    info['sent'] = bytearray()
+                    try:
+                        rq = S.parse_request(bytes(sent), 'aggr', 2)
+                        c('net_push %d %s' % (info['fd'], reply_for(random.Random('ra'), rq['req_id'], h0, None).hex()))
+                    except S.BadRequest:
+                        pass
+            if q.get('handle') == '1' and q.get('tag') == 'q0':
+                out = ('resp', q.get('sigdoc') == h0.hex()) if q.get('state') == '3' else ('err', int(q.get('herr', 0)))
+                break
+        c('ahnd_free 6')
+        c('async_free 0')
+        return dict(first=first, out=out, resent=len(sent), step=step)
+
     def run_client_fault(self, k, kind):
         """the first request is cut after k bytes by a would-block; then the peer closes ('eof') or the send timeout expires
         ('timeout'); afterwards everything is healthy again and one more request is added. Returns streams/outcomes."""
@@ -776,6 +835,19 @@ def async_part(job, r):
                     cv.viol('config-overtaken:later-request:%s' % (res['out'][0] if res['out'] else 'never-returned'), 'configuration request cut after %d bytes, pushed configuration arrived, then a signing request was added: it ended %s (events %s)' % (k, res['out'], res['events']), 'k=%d' % k)
                 else:
                     r.count('config_request_overtaken_later_completed')
+        # retry of a request whose first round timed out: the same handle object added again
+        if ci < 6:
+            for silent_for in (6, 11):
+                res = cv.run_readd_after_timeout(silent_for)
+                if 'error' in res:
+                    cv.viol('readd-after-timeout:setup', res['error'], '')
+                    continue
+                r.count('readd_after_timeout_variants')
+                r.observe(('readd-after-timeout', res['first'][1], res['out'] and res['out'][0]))
+                if res['out'] != ('resp', True):
+                    cv.viol('readd-after-timeout:retry-not-completed', 'first round ended with error %#x after the server stayed silent; the same handle added again on a healthy connection ended %s (bytes written in the second round: %d): a would-block-free, healthy send has to go out and complete' % (res['first'][1], res['out'], res['resent']), 'silent_for=%d' % silent_for)
+                else:
+                    r.count('readd_after_timeout_completed')
         # re-connect after an established connection was closed: refused / never completing
         if ci < 6:
             for how in ('refused', 'hanging'):
